@@ -292,4 +292,22 @@ var signatureTable = map[string]func(a aux) bool{
 		}
 		return false
 	},
+
+	// NEW (C02-bound-construct.diff): `new` on a bound function whose target is a
+	// native without [[Construct]] calls a nil construct function.
+	"c02-bound-native-construct": func(a aux) bool {
+		if a["group"] != "apply" || a["phase"] != "call" || a["class"] != "nil-deref" || a["site"] != "bindFunctionObject.construct" {
+			return false
+		}
+		src := a["src"]
+		if !strings.HasPrefix(src, "String(new ((") || !strings.Contains(src, ").bind.apply((") {
+			return false
+		}
+		for _, f := range []string{"Math.max", "String.prototype.concat", "Function.prototype.call"} {
+			if strings.HasPrefix(src, "String(new (("+f+").bind.apply(("+f+"), ") {
+				return true
+			}
+		}
+		return false
+	},
 }
